@@ -23,7 +23,7 @@ EXTENDS NodeSchema, Naturals, Sequences, FiniteSets, TLC
 SchemaX == [k \in DOMAIN Schema \cup {"SEQ"} |-> IF k = "SEQ" THEN << <<"A", "node">>, <<"B", "node">> >> ELSE Schema[k]]
 
 Tk(x)       == [f |-> "tk", lex |-> x, glue |-> ""]
-TkG(x, g)   == [f |-> "tk", lex |-> x, glue |-> g]      \* g: "L" no trivia before, "R" none after, "LR" neither
+TkG(x, g)   == [f |-> "tk", lex |-> x, glue |-> g]      \* g: "L" no trivia before, "R" none after, "LR" neither, "W" only white space after
 Ch(c, m)    == [f |-> "ch", cat |-> c, min |-> m]
 Ls(c, lo, hi, sepslot, sep, trail) ==
                [f |-> "ls", cat |-> c, min |-> 0, lo |-> lo, hi |-> hi, seps |-> sepslot, sep |-> sep, trail |-> trail]
@@ -636,9 +636,9 @@ VarName == Nd("Identifier", [IdentifierTkn |-> TkG("IDENT", "LR"), Value |-> Vl(
 More3 == <<
   \* keywords as member names: after "->" every label is a name (both grammars); after "::" and in declarations from PHP 7 on
   V("ExprPropertyFetch/reserved", "ExprPropertyFetch", {"expr", "var", "deref"}, "both", L.atom, FALSE,
-    [Var |-> Ch("deref", 0), ObjectOperatorTkn |-> TkG("->", "R"), Prop |-> IdentRes]),
+    [Var |-> Ch("deref", 0), ObjectOperatorTkn |-> TkG("->", "W"), Prop |-> IdentRes]),
   V("ExprMethodCall/reserved", "ExprMethodCall", {"expr", "deref"}, "both", L.atom, FALSE,
-    [Var |-> Ch("deref", 0), ObjectOperatorTkn |-> TkG("->", "R"), Method |-> IdentRes, OpenParenthesisTkn |-> Tk("("), Args |-> Args, CloseParenthesisTkn |-> Tk(")")]),
+    [Var |-> Ch("deref", 0), ObjectOperatorTkn |-> TkG("->", "W"), Method |-> IdentRes, OpenParenthesisTkn |-> Tk("("), Args |-> Args, CloseParenthesisTkn |-> Tk(")")]),
   V("ExprStaticCall/reserved", "ExprStaticCall", {"expr", "deref"}, "7", L.atom, FALSE,
     [Class |-> Ch("name", 0), DoubleColonTkn |-> Tk("::"), Call |-> IdentRes, OpenParenthesisTkn |-> Tk("("), Args |-> Args, CloseParenthesisTkn |-> Tk(")")]),
   V("ExprClassConstFetch/reserved", "ExprClassConstFetch", {"expr", "scalar"}, "7", L.atom, FALSE,
@@ -783,7 +783,7 @@ More4 == <<
                                      CloseSquareBracketTkn |-> Tk("]"), CloseCurlyBracketTkn |-> TkG("}", "R")]), StrText>>),
      CloseQuoteTkn |-> TkG("\"", "L")]),
   V("StmtTraitUseAlias/reserved", "StmtTraitUseAlias", {"adaptation"}, "7", 0, TRUE,
-    [Method |-> Ident("IDENT"), AsTkn |-> Tk("as"), Alias |-> IdentRes, SemiColonTkn |-> Tk(";")]),
+    [Method |-> Ident("IDENT"), AsTkn |-> Tk("as"), Alias |-> Nd("Identifier", [IdentifierTkn |-> Tk("IDENT_RES_NM"), Value |-> Vl("IdentifierTkn")]), SemiColonTkn |-> Tk(";")]),
   V("StmtGroupUseList/typedtrailing", "StmtGroupUseList", {"toponly", "nsitem"}, "7", 0, TRUE,
     [UseTkn |-> Tk("use"), Type |-> Mod("function"), Prefix |-> Ch("plainname", 0), NsSeparatorTkn |-> TkG("\\", "LR"),
      OpenCurlyBracketTkn |-> TkG("{", "L"), Uses |-> Ls("useclause", 1, 2, "SeparatorTkns", ",", "yes"), CloseCurlyBracketTkn |-> Tk("}"), SemiColonTkn |-> Tk(";")]),
@@ -817,7 +817,26 @@ More4 == <<
      ObjectOperatorTkn |-> Tk("->"), Method |-> Ident("IDENT"), OpenParenthesisTkn |-> Tk("("), Args |-> Args, CloseParenthesisTkn |-> Tk(")")])
 >>
 
-Variants == Binaries \o Assigns \o Unaries \o Atoms \o Others \o Statements \o More \o Heredocs \o Decls \o More2 \o More3 \o More4
+More5 == <<
+  \* list() with two skipped slots; arrays and calls with a trailing comma (the grammars add an empty item for it in arrays)
+  V("ExprList/skip2", "ExprList", {"listexpr"}, "both", 0, FALSE,
+    [ListTkn |-> Tk("list"), OpenBracketTkn |-> Tk("("),
+     Items |-> SqS(<<Nd("ExprArrayItem", [f |-> "empty"]), Ch("listitem", 0), Nd("ExprArrayItem", [f |-> "empty"]), Ch("listitem", 0)>>, "SeparatorTkns", ","), CloseBracketTkn |-> Tk(")")]),
+  V("ExprArray/trailing", "ExprArray", {"expr"}, "both", L.atom, FALSE,
+    [OpenBracketTkn |-> Tk("["), Items |-> SqS(<<Ch("arrayitem", 0), Ch("arrayitem", 0), Nd("ExprArrayItem", [f |-> "empty"])>>, "SeparatorTkns", ","), CloseBracketTkn |-> Tk("]")]),
+  V("ExprArray/trailing1", "ExprArray", {"expr"}, "both", L.atom, FALSE,
+    [ArrayTkn |-> Tk("array"), OpenBracketTkn |-> Tk("("), Items |-> SqS(<<Ch("arrayitem", 0), Nd("ExprArrayItem", [f |-> "empty"])>>, "SeparatorTkns", ","), CloseBracketTkn |-> Tk(")")]),
+  \* a braced property name inside a class reference:  new $a->{$b}
+  V("ExprPropertyFetch/classrefcurly", "ExprPropertyFetch", {"classref"}, "both", L.atom, FALSE,
+    [Var |-> SimpleVar, ObjectOperatorTkn |-> Tk("->"), OpenCurlyBracketTkn |-> Tk("{"), Prop |-> Ch("expr", 0), CloseCurlyBracketTkn |-> Tk("}")]),
+  \* a close tag directly followed by an open tag: no inline HTML in between (glue "O": an open tag comes first in the next gap)
+  V("closetag+opentag", "StmtNop", {"inner"}, "both", 0, TRUE, [SemiColonTkn |-> TkG("?>", "RO")]),
+  V("closetagnl+opentag", "StmtNop", {"inner"}, "both", 0, TRUE, [SemiColonTkn |-> TkG("?>NL", "RO")]),
+  V("echo+closetag+opentag", "StmtEcho", {"inner"}, "both", 0, FALSE,
+    [EchoTkn |-> Tk("echo"), Exprs |-> LsM("expr", L.yield, 1, 2, "SeparatorTkns", ",", "no"), SemiColonTkn |-> TkG("?>", "RO")])
+>>
+
+Variants == Binaries \o Assigns \o Unaries \o Atoms \o Others \o Statements \o More \o Heredocs \o Decls \o More2 \o More3 \o More4 \o More5
 
 \* the root: a file is a statement list (the harness prefixes the open tag as free-floating text of the first token)
 RootFill == [Stmts |-> Ls("top", 0, 3, "", "", "no")]
